@@ -102,6 +102,20 @@ def judge_callbacks(rec, cb, case, what):
 
 
 def loading_case(rec, rng, cid, scratch):
+    import nanite.read as nread
+    # documented option of nanite.read: DEFAULT_MODALITY = None lifts the
+    # restriction to force-distance data; loaded curves stay Indentations
+    mod0 = nread.DEFAULT_MODALITY
+    if rng.random() < .25:
+        nread.DEFAULT_MODALITY = None
+        rec.event("loading cases with DEFAULT_MODALITY = None")
+    try:
+        _loading_case(rec, rng, cid, scratch)
+    finally:
+        nread.DEFAULT_MODALITY = mod0
+
+
+def _loading_case(rec, rng, cid, scratch):
     from nanite import IndentationGroup, load_group
     from nanite.indent import Indentation
     from nanite.read import load_data
